@@ -323,6 +323,14 @@ impl ServerState {
     /// this process until `is_compiling` becomes false.
     pub async fn wait_for_parsing(&self) {
         loop {
+            // Register for the notification *before* checking the flags. `notify_waiters` stores
+            // no permit: a `Notified` future only observes calls made after it was created, so
+            // creating it after the checks would lose a notification sent in between and leave
+            // this task waiting forever.
+            let notified = self.finished_compilation.notified();
+            tokio::pin!(notified);
+            notified.as_mut().enable();
+
             // Check both the is_compiling flag and the last_compilation_state.
             // Wait if is_compiling is true or if the last_compilation_state is Uninitialized.
             #[cfg(fuellabs_sway_verif)]
@@ -341,18 +349,7 @@ impl ServerState {
                 }
             }
             // We are still compiling, lets wait to be notified.
-            #[cfg(fuellabs_sway_verif)]
-            {
-                // Same future, split so that its creation and its completion are separate steps.
-                sway_utils::verif::step("T.create", "");
-                let notified = self.finished_compilation.notified();
-                sway_utils::verif::step("T.await", "");
-                notified.await;
-                sway_utils::verif::step("T.woke", "");
-                continue;
-            }
-            #[cfg(not(fuellabs_sway_verif))]
-            self.finished_compilation.notified().await;
+            notified.await;
         }
     }
 
